@@ -484,6 +484,29 @@ theorem genesis_rebuilds_bridger_index (s : State) (hK : (s.oracles.map Prod.fst
     ∀ b a, (roundTrip s).byBridger.get b = some a → ∃ orc, (roundTrip s).oracles.get a = some orc ∧ orc.bridger = b :=
   binv_roundTrip s hK
 
+/-- registered bridgers are unique: in every state reached with restarts, every oracle record's bridger is indexed to that very
+oracle (converse of the index invariant), so no two records share a bridger -/
+theorem bridger_unique_g (p : Params) (ops : List GOp) :
+    (∀ a orc, (greach p ops).oracles.get a = some orc → (greach p ops).byBridger.get orc.bridger = some a) ∧
+    (∀ a a' o o', (greach p ops).oracles.get a = some o → (greach p ops).oracles.get a' = some o' → o.bridger = o'.bridger → a = a') := by
+  have h := rinv2_grun _ ops (rinv2_init p)
+  exact ⟨h.ci, fun a a' o o' h1 h2 hb => cinv_inj h.ci h1 h2 hb⟩
+
+/-- a restart is TRANSPARENT for claim admission: after export / import the bridger index answers every look-up exactly as
+before (the store order may differ), the registry is the same record for record — so `checkBridgerIsOracle` accepts exactly
+the same bridgers for exactly the same oracles, in every state reached with any number of earlier restarts -/
+theorem genesis_reproduces_bridger_index (p : Params) (ops : List GOp) (b : Nat) :
+    (roundTrip (greach p ops)).byBridger.get b = (greach p ops).byBridger.get b ∧
+    (roundTrip (greach p ops)).oracles = (greach p ops).oracles := by
+  have h := rinv2_grun _ ops (rinv2_init p)
+  exact ⟨roundTrip_index _ h.ku h.bi h.ci b, (roundTrip_registry _ h.ku).1⟩
+
+/-- uniqueness of bridgers is needed for that: with two records of one bridger the rebuilt index keeps the LAST record's
+oracle where the live index may hold the first -/
+theorem genesis_index_needs_unique_bridgers :
+    let s : State := { oracles := [(1, ⟨101, 201, 0, true, 0⟩), (2, ⟨101, 202, 0, true, 0⟩)], byBridger := [(101, 1)] }
+    s.byBridger.get 101 = some 1 ∧ (roundTrip s).byBridger.get 101 = some 2 := by decide
+
 /-- key-uniqueness is needed: with two records under one oracle key the rebuilt index names a bridger that the (last-wins)
 registry does not have -/
 theorem genesis_index_needs_unique_keys :
